@@ -20,6 +20,7 @@ def run_rules(pid: str, repo: str, tier: str) -> report.Result:
     res.analysed["functions"] = len(prog.functions)
     res.analysed["locals_renamed_to_reviewed_names"] = getattr(prog, "renamed_locals", 0)
     mod.check(prog, res, tier)
+    res.tree_functions = {q[len("pyttb."):] if q.startswith("pyttb.") else q for q in prog.functions}
     return res
 
 
